@@ -1,7 +1,8 @@
 import PolyVerif.Base.Proto
 import PolyVerif.Base.Chan
 /-
-Model of /repo/io/fasta/fasta.go (as it is after fix 99317d2: `scanner.Buffer(…, math.MaxInt32)`).
+Model of /repo/io/fasta/fasta.go (as it is after the fixes 99317d2: `scanner.Buffer(…, math.MaxInt32)`, and
+2e08c5c: lines that hold only white space are skipped).
 
   ParseConcurrent = `scanLines` (bufio.Scanner with the default ScanLines split function and a token
                     limit) → `parseLines` (the five-way switch with the `start` flag and the final
@@ -51,9 +52,20 @@ def maxInt32 : Nat := 2147483647
 
 /-! ### ParseConcurrent's loop -/
 
+/-- `unicode.IsSpace`: the characters `strings.TrimSpace` removes -/
+def spaceChars : List Char :=
+  ['\t', '\n', '\x0b', '\x0c', '\r', ' ', '\u0085', '\u00a0', '\u1680', '\u2000', '\u2001', '\u2002', '\u2003',
+   '\u2004', '\u2005', '\u2006', '\u2007', '\u2008', '\u2009', '\u200a', '\u2028', '\u2029', '\u202f', '\u205f', '\u3000']
+
+def goIsSpace (c : Char) : Bool := spaceChars.contains c
+
+/-- `len(strings.TrimSpace(line)) == 0` -/
+def blankLine (line : Str) : Bool := line.all goIsSpace
+
 /-- The loop body of ParseConcurrent over the scanner's tokens, returning the records in the order in
 which they are sent to the channel; `acc` is `sequenceLines` in REVERSE order (Go appends at the end).
-The five cases of the `switch`, in order: empty line; `;` comment; a line not starting with `>`
+The five cases of the `switch`, in order: a line that is empty after `strings.TrimSpace` (empty, or white
+space only); `;` comment; a line not starting with `>`
 (sequence line); `>` when not at the start (flush the previous record, take the new name); the first `>`
 (take the name; note that `sequenceLines` is not reset here).  After the loop the last record is sent
 unconditionally — so an input without any header yields one record with an empty name. -/
@@ -63,7 +75,8 @@ def parseLines : Bool → Str → List Str → List Str → List Rec
     match line with
     | [] => parseLines start name acc rest
     | c :: tl =>
-      if c = ';' then parseLines start name acc rest
+      if blankLine (c :: tl) then parseLines start name acc rest
+      else if c = ';' then parseLines start name acc rest
       else if c ≠ '>' then parseLines start name (line :: acc) rest
       else if !start then ⟨name, acc.reverse.flatten⟩ :: parseLines false tl [] rest
       else parseLines false tl acc rest
